@@ -39,3 +39,100 @@ PLAN["C03"] = dict(
         J("bulk-asan", "asan", ["c03", "--part", "bulk"], shards=8, budget_s=q(t, 30, 180)),
     ],
 )
+
+PLAN["C01"] = dict(
+    level="exploration",
+    engines=["free-run + WGL per-key linearizability checker (native)"],
+    assumptions=[
+        "tickets from one relaxed fetch_add counter taken before the call and after the return give a real-time order",
+        "sub-histories of more than 256 calls or 2^21 search states are counted as unchecked, never as violations",
+        "preemption happens where the OS scheduler or an injected delay puts it; interleavings are sampled",
+    ],
+    require={"key_histories_checked": 500, "contended_key_histories": 20, "rounds_with_resize": 5, "rounds_with_tree_conversion": 5},
+    jobs=lambda t: [
+        J("freerun", "native", ["c01", "--rounds", q(t, 220, 5000)], shards=q(t, 8, 12), budget_s=q(t, 30, 600), parallel=q(t, 8, 12)),
+    ],
+)
+
+PLAN["C04"] = dict(
+    level="exploration",
+    engines=["drop ledger over directed paths and free-run rounds (native)"],
+    assumptions=["ids beyond the ledger capacity of 2^23 per round are counted as untracked (counter instances_untracked_overflow, 0 in practice)"],
+    require={"instances_created": 1000, "drops_before_teardown": 100, "path_treeify": 1, "path_list_split": 1},
+    jobs=lambda t: [
+        J("ledger", "native", ["c04", "--rounds", q(t, 200, 5000)], shards=q(t, 8, 12), budget_s=q(t, 30, 600), parallel=q(t, 8, 12)),
+    ],
+)
+
+PLAN["C05"] = dict(
+    level="exploration",
+    engines=["free-run + quiescent inspector / public agreement audit (native)"],
+    assumptions=["audits run only when every worker thread has been joined"],
+    require={"quiescent_points_audited": 100, "points_after_multi_thread_resize": 3, "tree_bins_audited": 3},
+    jobs=lambda t: [
+        J("quiescent", "native", ["c05", "--rounds", q(t, 220, 5000)], shards=q(t, 8, 12), budget_s=q(t, 30, 600), parallel=q(t, 8, 12)),
+    ],
+)
+
+PLAN["C06"] = dict(
+    level="exploration",
+    engines=["seq engine with red-black audit and comparison counter after every operation (native)"],
+    assumptions=["the bound floor(4*log2(n+1)) is the worst case of a valid red-black tree with two key comparisons per level"],
+    require={"tree_bins_audited": 1000, "lookups_counted": 10000},
+    jobs=lambda t: [
+        J("trees", "native", ["c06"], shards=16, budget_s=q(t, 25, 500)),
+    ],
+)
+
+PLAN["C09"] = dict(
+    level="exploration",
+    engines=["enumeration of guard-taking entry points with a foreign collector's guard (native)"],
+    assumptions=["the entry-point list is cross-checked against a scan of /repo/src for public functions taking a Guard; a function missing from the list makes the check inconclusive"],
+    require={},
+    scan_entry_points=True,
+    jobs=lambda t: [
+        J("foreign-guard", "native", ["c09"], shards=1, budget_s=20),
+    ],
+)
+
+PLAN["C10"] = dict(
+    level="exploration",
+    engines=["resize event monitor over orchestrated (gated) and free-run resizes (native)", "stamp arithmetic over all 31 table lengths"],
+    assumptions=["resize events are emitted by hooks at points ordered before the next generation can begin"],
+    require={"stamp_lengths": 31, "orch_generations_multi_helper": 5, "generations": 50, "generations_multi_helper": 3},
+    jobs=lambda t: [
+        J("resize", "native", ["c10", "--rounds", q(t, 120, 4000)], shards=q(t, 8, 12), budget_s=q(t, 30, 600), parallel=q(t, 8, 12)),
+    ],
+)
+
+PLAN["C14"] = dict(
+    level="exploration",
+    engines=["capacity sweep, reserve grid, removal grid and growth-monitored random sequences (native)"],
+    assumptions=["'well distributed' keys are realised by the identity hasher (key i in bin i mod n)"],
+    require={"capacity_cases": 1000, "removal_cases": 50, "growth_sequences": 50},
+    jobs=lambda t: [
+        J("capacity", "native", ["c14"], shards=16, budget_s=q(t, 25, 400)),
+    ],
+)
+
+PLAN["C18"] = dict(
+    level="fault_enumeration",
+    engines=["panic injected at every callback invocation of a dry run (native, AddressSanitizer)"],
+    assumptions=["exhaustive over the injection points of each prepared map; the prepared maps are a random sample"],
+    require={"injections": 200, "injections_on_map_with_tree_bin": 20},
+    jobs=lambda t: [
+        J("inject", "native", ["c18"], shards=8, budget_s=q(t, 25, 400)),
+        J("inject-asan", "asan", ["c18"], shards=8, budget_s=q(t, 30, 400), leaks=False),
+    ],
+)
+
+PLAN["C19"] = dict(
+    level="exploration",
+    engines=["serde_json round trips and generated inputs, rayon bulk paths with pools of 1/2/4/16 threads (native, AddressSanitizer)"],
+    assumptions=["serde_json is the only serde format exercised"],
+    require={"inputs_with_repeated_key": 10, "par_from_iter_map": 3, "roundtrip_string_map": 3},
+    jobs=lambda t: [
+        J("bulk", "native", ["c19"], shards=8, budget_s=q(t, 25, 400), parallel=4),
+        J("bulk-asan", "asan", ["c19"], shards=4, budget_s=q(t, 30, 300), parallel=4),
+    ],
+)
